@@ -2,13 +2,16 @@
 EXTENDS WriterImpl, TLC, Json
 CONSTANTS MaxDepth
 VARIABLE h
-MCNd == {"image", "mask", "trace"}
+MCNd == {"image", "mask", "trace", "trace/fl1_raw", "trace/fl1_median"}
 MCRagged == {"contour"}
 FeatsA == {"image", "contour"}
 FeatsB == {"deform", "mask"}
 FeatsC == {"trace", "fl1_max"}
 \* the index feature: whatever is handed to the writer, the file enumerates 1..N
 FeatsD == {"index", "deform"}
+\* two channels of the trace feature written separately (store_feature("trace",
+\* {channel: data})): each channel is a feature of its own, also in replace mode
+FeatsE == {"trace/fl1_raw", "trace/fl1_median"}
 FeatsAll == {"image", "contour", "deform", "mask", "trace", "fl1_max", "index"}
 NoFeats == {}
 NoLogs == {}
